@@ -19,6 +19,8 @@
 (*  "leaper"  kind, sq, att             knight / king tables               *)
 (*  "board"   obs, sum                  transient board: C12 invariants    *)
 (*  "matescore" pos, kind, scores, mm   mate / stalemate scores by depth   *)
+(*  "score"   pos, hm, scores, static, mm   evaluate::score composition   *)
+(*  "render"  pos, rows                 Display of the board               *)
 (***************************************************************************)
 EXTENDS Notation, Json, IOUtils
 
@@ -140,6 +142,29 @@ CheckBoard(r) ==
           /\ SeqSet(u.occ) = { q \in Sq : b[q] # 0 })
          \/ Bad("occupancy summaries disagree with the squares on a transient board", 0))
 
+\* evaluate::score (what the search uses at its leaves) against the spec's composition: mate scores
+\* by remaining depth, zero for stalemate and for a draw by move count, the static score otherwise
+CheckScore(r) ==
+  LET pos == PosOf(r.pos)
+      L == Legal(pos)
+      v == Verdict(pos, L)
+      sign == IF pos.turn = W THEN -1 ELSE 1
+  IN IF ~Consistent(pos) THEN Skip("inconsistent position")
+     ELSE IF v = "checkmate" /\ r.hm < 100
+          THEN (\A d \in 1..Len(r.scores) : sign * r.scores[d] >= r.mm) \/ Bad("a mated position is not scored as a mate at every remaining depth", r.scores)
+     ELSE IF v = "stalemate" \/ r.hm >= 100
+          THEN (\A d \in 1..Len(r.scores) : r.scores[d] = 0) \/ Bad("stalemate / draw by move count does not score zero", r.scores)
+     ELSE (\A d \in 1..Len(r.scores) : r.scores[d] = r.static) \/ Bad("leaf score of an ordinary position is not its static score", <<r.scores, r.static>>)
+
+\* the text rendering of a board (Display): eight rows, rank 8 first, one glyph per square
+GlyphOf(x) == CASE x = 0 -> "." [] x = 1 -> "♟" [] x = 2 -> "♞" [] x = 3 -> "♝" [] x = 4 -> "♜" [] x = 5 -> "♛" [] x = 6 -> "♚"
+                [] x = 7 -> "♙" [] x = 8 -> "♘" [] x = 9 -> "♗" [] x = 10 -> "♖" [] x = 11 -> "♕" [] OTHER -> "♔"
+CheckRender(r) ==
+  (/\ Len(r.rows) = 8
+   /\ \A rr \in 1..8 : /\ Len(r.rows[rr]) = 8
+                        /\ \A f \in 1..8 : r.rows[rr][f] = GlyphOf(r.pos.b[(8 - rr) * 8 + f]))
+  \/ Bad("rendered board differs from the position", r.rows)
+
 Ok == lvl = 2 =>
       LET r == Recs[i] IN
       CASE r.t = "moves" -> CheckMoves(r)
@@ -152,6 +177,8 @@ Ok == lvl = 2 =>
         [] r.t = "leaper" -> CheckLeaper(r)
         [] r.t = "board" -> CheckBoard(r)
         [] r.t = "matescore" -> CheckMateScore(r)
+        [] r.t = "score" -> CheckScore(r)
+        [] r.t = "render" -> CheckRender(r)
         [] r.t = "panic" -> IF Consistent(PosOf(r.pos)) THEN Bad("code under test panicked", r.where)
                             ELSE Skip("inconsistent position")
         [] OTHER -> Bad("unknown record type", r.t)
